@@ -91,6 +91,34 @@ Definition on_keyval (st : pstate) (path : list key) (k : key) (v : item) : cres
   | CPanic s => CPanic s
   end.
 
+(* state.rs descend_path: a table made of dotted keys spans from its first key to the end of its
+   last value.  The Rust code widens the spans while descending; here it is a separate pass over the
+   same path after the (unchanged) insertion `on_keyval`, which gives the same tree on success. *)
+Fixpoint set_dotted_spans (t : tbl) (path : list key) (value_end : option N) : tbl :=
+  match path with
+  | [] => t
+  | k :: ptl =>
+    match kv_get (t_items t) (k_key k) with
+    | Some (_, ITable sub) =>
+      let sub1 := if t_dotted sub
+                  then match key_span k, value_end with
+                       | Some ks, Some e => t_set_span sub (widen (t_span sub) ks e)
+                       | _, _ => sub end
+                  else sub in
+      t_set_items t (kv_set (t_items t) (k_key k) (ITable (set_dotted_spans sub1 ptl value_end)))
+    | _ => t
+    end
+  end.
+
+(* on_keyval as in the source = insertion + span bookkeeping of dotted tables *)
+Definition on_keyval_sp (st : pstate) (path : list key) (k : key) (v : item) : cres pstate :=
+  match on_keyval st path k v with
+  | COk st' => COk (mkState (st_root st') (st_trailing st') (st_position st')
+                            (set_dotted_spans (st_current st') path (item_end v))
+                            (st_is_array st') (st_path st'))
+  | e => e
+  end.
+
 (* finalize_table *)
 Definition finalize_table (st : pstate) : cres pstate :=
   let table := st_current st in
@@ -221,7 +249,7 @@ Definition parse_keyval : parser (list key * (key * item)) :=
 
 (* document.rs: keyval(state) *)
 Definition keyval (st : pstate) : parser pstate :=
-  try_map (fun '(p, (k, v)) => lift_state (on_keyval st p k v)) parse_keyval.
+  try_map (fun '(p, (k, v)) => lift_state (on_keyval_sp st p k v)) parse_keyval.
 
 (* table.rs: std_table / array_table *)
 Definition header (is_array : bool) (st : pstate) : parser pstate :=
